@@ -578,8 +578,8 @@ class ExcelModel:
             ref = '{c1}{r1}:{c2}{r2}'.format(**rng)
             for c, v in zip(np.ravel(sheet[ref]), np.ravel(r.value)):
                 try:
-                    if v is sh.EMPTY:
-                        v = None
+                    if v is sh.EMPTY or (isinstance(v, str) and not v):
+                        v = None  # Empty text is not a cell content.
                     elif isinstance(v, np.generic):
                         v = v.item()
                     elif isinstance(v, XlError):
